@@ -93,6 +93,20 @@ def gen_ud_hex(rng, acc):
     return (head + rng.randbytes(32 - n)).hex()
 
 
+CLI_OPERATION = {"onboard": "onboard", "attestation": "attestation", "pubkeys": "pubkeys",
+                 "verify": "verify_attestation"}
+
+
+def run_step(acc, ae, via_cli, name, fn, opts, stdin):
+    """half of the flows go through the tools' own command lines (adm_ledger / adm_sgx:
+    argument parser, defaults, dispatch table)"""
+    if via_cli and name in CLI_OPERATION and not any(
+            isinstance(v, str) and v.startswith("-") for v in vars(opts).values()):
+        acc.count("steps_through_the_command_line")
+        return ae.run_cli(CLI_OPERATION[name], opts, stdin=stdin)
+    return ae.run(fn, opts, stdin=stdin)
+
+
 def same_certificate(der_a, der_b):
     """True when both encodings parse to the same signed content, signature value and
     algorithm (an encoding-only difference)"""
@@ -159,6 +173,7 @@ def ledger_run(acc, cseed, alter, tmpdir):
                        signer_framing=framing, alter=hooks)
     dev = gd.dev
     pin = "Abcd1234"
+    via_cli = rng.random() < 0.5
     ud = gen_ud(rng, acc)
     setup = os.path.join(tmpdir, "setup.json")
     final = os.path.join(tmpdir, "att.json")
@@ -206,7 +221,7 @@ def ledger_run(acc, cseed, alter, tmpdir):
                         json.dump(pk, f)
                 opts = options(attestation_certificate_file_path=final,
                                pubkeys_file_path=pkjson, root_authority=root_hex)
-            ok, o, exc = ae.run(fn, opts, stdin=stdin)
+            ok, o, exc = run_step(acc, ae, via_cli, name, fn, opts, stdin)
             out = o
             if not ok:
                 failed = (name, exc)
@@ -326,6 +341,7 @@ def sgx_run(acc, cseed, alter, tmpdir):
                     include_root=include_root)
     dev = gd.dev
     pin = dev.pin.decode()
+    via_cli = rng.random() < 0.5
     ud = gen_ud(rng, acc)
     final = os.path.join(tmpdir, "sgxatt.json")
     pkout = os.path.join(tmpdir, "sgxpk.txt")
@@ -367,7 +383,7 @@ def sgx_run(acc, cseed, alter, tmpdir):
                         json.dump(pk, f)
                 opts = options(attestation_certificate_file_path=final,
                                pubkeys_file_path=pkjson, root_authority=rootp)
-            ok, o, exc = ae.run(fn, opts)
+            ok, o, exc = run_step(acc, ae, via_cli, name, fn, opts, "")
             out = o
             if not ok:
                 failed = (name, exc)
